@@ -299,6 +299,8 @@ pub fn create_dir_all(path: &UnixStr) -> Result<()> {
         if len > NO_ALLOC_MAX_LEN {
             let mut owned: Vec<u8> = Vec::with_capacity(len);
             ptr.copy_to(owned.as_mut_ptr(), len);
+            // The bytes were just written, without this the slice handed on is empty
+            owned.set_len(len);
             write_all_sub_paths(owned.as_mut_slice(), ptr)?;
             return Ok(());
         }
